@@ -120,7 +120,8 @@ def expected(events, cfg=None):
                 p = args.index("NAME")
                 name = args[p + 1]
                 rest = args[:p] + args[p + 2:]
-                entries.append({"kind": "ctest", "name": name, "sig": f"{name}({' '.join(rest)})", "doc": dl, "src": i})
+                entries.append({"kind": "ctest", "name": name, "sig": f"{name}({' '.join(rest)})", "doc": dl, "src": i,
+                                "args_list": list(rest)})
         elif k == "option":
             if shown("option"):
                 entries.append({"kind": "option", "name": nm, "sig": nm, "doc": dl, "src": i,
@@ -186,6 +187,10 @@ def compare(exp, obs, check_doc=True):
             continue
         if rstobs.norm_ws(e["sig"]) != o["sig"]:
             msgs.append(f"signature: {where} expected {e['sig']!r} observed {o['sig']!r}")
+        elif e["kind"] == "ctest" and "rawsig" in o and "args_list" in e:
+            got = rstobs.split_sig(o["rawsig"])[1]
+            if got is not None and got != e["args_list"]:
+                msgs.append(f"signature: {where} arguments as written {e['args_list']!r}, shown {got!r}")
         elif e["kind"] in DEF_KINDS and "rawsig" in o:
             # parameter by parameter: whitespace inside a quoted or bracket parameter belongs to the parameter
             want = [p for p in list(e["params"]) + (["**kwargs"] if e["kwargs"] else []) if p != ""]
